@@ -72,6 +72,9 @@ def generate(seed: int, tier: str) -> Dict[str, Any]:
                 payload["stats"] = {"n": r.randint(0, 9)}
             if r.chance(0.1):
                 payload["items"] = [r.randint(0, 9)]
+            if r.chance(0.15):
+                # containers two and three levels below the record (per-graph totals, lists inside them)
+                payload["deep"] = {"per_graph": {"g1": {"seen": [r.randint(0, 9)], "n": r.randint(0, 9)}}, "rows": [[r.randint(0, 9)], {"k": [1]}]}
             logs.append({"stream": r.choice(STREAMS), "payload": payload})
         agents.append({"id": a, "graphs": sorted(r.sample(GRAPHS, r.randint(0, 3))), "logs": logs, "text": E.gen_text(r),
                        # how the agent's graph set is declared in the state (the driver accepts several forms)
@@ -119,6 +122,12 @@ def _mk_stub(spec_by_agent: Dict[str, Dict[str, Any]]):
                 live["stats"]["late"] = True
             if isinstance(live.get("items"), list):
                 live["items"].append("added after logging")
+            if isinstance(live.get("deep"), dict):
+                live["deep"]["per_graph"]["g1"]["seen"].append("late")
+                live["deep"]["per_graph"]["g1"]["n"] += 1
+                live["deep"]["per_graph"]["g2"] = {"seen": [], "n": 0}
+                live["deep"]["rows"][0].append("late")
+                live["deep"]["rows"][1]["k"].append(2)
         deltas = [ProposedDelta(target_kind="node", target_id=d["id"], attr="weight", delta=float(d["delta"]), op_idx=None, idx=i)
                   for i, d in enumerate(spec["deltas"])]
         t4 = types.SimpleNamespace(approved_deltas=deltas, rejected_ops=[], reasons=[], metrics={})
